@@ -10,5 +10,9 @@ def run(ctx):
     sweeps.run_sweep(ctx, "c15", [], "C15")
     # all two-step histories over the same grid: the second step's timeout must run from the first *input*
     sweeps.run_sweep(ctx, "c15h", [], "C15")
+    # the same sweeps under MemorySanitizer: a transition decided by memory the constructor never wrote (a table scanned
+    # one cell too far, a field left out of the initialisation) is reported at the deciding branch
+    sweeps.run_sweep(ctx, "c15", [], "C15", flavour="msan", sanitizer_is_violation=True)
+    sweeps.run_sweep(ctx, "c15h", [], "C15", flavour="msan", sanitizer_is_violation=True)
     rep.exhaustive = True
     rep.need("steps", rep.counters.get("sweep_c15_cases", 0), 4500)
